@@ -381,8 +381,14 @@ class Receiver:
                 # We're done, so now we need to check
                 # whether task has returned an error.
                 message = current_message.result()
-                current_message = asyncio.create_task(iterator.__anext__())  # type: ignore
                 fetched_tasks += 1
+                # Do not start another look-ahead fetch once the quota is reached:
+                # a message it takes from the broker could never be executed.
+                if not (
+                    self.max_tasks_to_execute
+                    and fetched_tasks >= self.max_tasks_to_execute
+                ):
+                    current_message = asyncio.create_task(iterator.__anext__())  # type: ignore
                 await queue.put(message)
             except (asyncio.CancelledError, StopAsyncIteration):
                 break
